@@ -167,7 +167,7 @@ Row(rep, cells)  == [rep |-> rep, cells |-> cells]
 Ord == Cell(1, FALSE)
 
 \* positions of the typed-but-empty families carry the markup variant: "<variant>.<first|last>"
-IsFirst(pos) == pos \in {"first", "string_p.first", "string_nop.first", "string_attr.first", "string_span.first"}
+IsFirst(pos) == pos \in {"first", "string_p.first", "string_nop.first", "string_attr.first", "string_span.first", "covered.first"}
 OdsSheet(c, mag, pos) ==
     CASE c = "ods_cell_repeat" ->
            <<Row(1, IF IsFirst(pos) THEN <<Cell(mag, FALSE), Ord, Ord, Ord>> ELSE <<Ord, Ord, Ord, Cell(mag, FALSE)>>),
